@@ -90,7 +90,8 @@ public:
 	// Remove when this session object is a private object for this token.
 	bool removeOnTokenLogout(CK_SLOT_ID inSlotID);
 
-	// These functions are just stubs for session objects
+	// Session objects only live in memory; a transaction keeps a copy of the
+	// attributes so that abortTransaction() can restore them
 	virtual bool startTransaction(Access access);
 	virtual bool commitTransaction();
 	virtual bool abortTransaction();
@@ -106,8 +107,17 @@ private:
 	// Discard the object's attributes
 	void discardAttributes();
 
+	// Discard the copy of the attributes made by startTransaction()
+	void discardBackup();
+
 	// The object's raw attributes
 	std::map<CK_ATTRIBUTE_TYPE, OSAttribute*> attributes;
+
+	// The attributes as they were when the current transaction was started
+	std::map<CK_ATTRIBUTE_TYPE, OSAttribute*> backup;
+
+	// Are we in a transaction?
+	bool inTransaction;
 
 	// The object's validity state
 	bool valid;
